@@ -1,6 +1,7 @@
 //! Shared model-side oracles: probes, bounds, range filters and the query
 //! suite that compares any opened FST with a model.
 
+use std::collections::BTreeMap;
 use fst::raw::Fst;
 use fst::{IntoStreamer, Streamer};
 use proptest::prelude::*;
@@ -195,6 +196,40 @@ pub fn apply_set_state<'f, A: fst::Automaton>(
         };
     }
     sb
+}
+
+/// get_key / get_key_into against the inverse of a model with strictly increasing values:
+/// up to `max` evenly spaced stored values, each with its neighbours, plus 0 and u64::MAX.
+pub fn check_get_key(bytes: &[u8], pairs: &Pairs, max: usize) -> CheckResult {
+    let f = match Fst::new(bytes) {
+        Ok(f) => f,
+        Err(e) => vfail!("open-failed", "bytes do not open: {:?}", e),
+    };
+    let inverse: BTreeMap<u64, &Vec<u8>> = pairs.iter().map(|(k, v)| (*v, k)).collect();
+    let step = (pairs.len() / max.max(1)).max(1);
+    let mut queries: Vec<u64> = vec![0, u64::MAX];
+    for (_, v) in pairs.iter().step_by(step) {
+        queries.push(*v);
+        queries.push(v.wrapping_add(1));
+        queries.push(v.wrapping_sub(1));
+    }
+    if let Some(l) = pairs.last() {
+        queries.push(l.1);
+    }
+    queries.sort();
+    queries.dedup();
+    for q in queries {
+        let want = inverse.get(&q).map(|k| (*k).clone());
+        let got = f.get_key(q);
+        vensure!(got == want, "get-key-mismatch", "get_key({}) = {:?} but the key with that value is {:?} ({} keys)", q, got.as_ref().map(|k| show(k)), want.as_ref().map(|k| show(k)), pairs.len());
+        let mut buf = b"x".to_vec();
+        let ok = f.get_key_into(q, &mut buf);
+        match &want {
+            Some(k) => vensure!(ok && buf[..1] == b"x"[..] && buf[1..] == k[..], "get-key-into", "get_key_into({}) returned {} leaving {} but must append {}", q, ok, show(&buf), show(k)),
+            None => vensure!(!ok, "get-key-into", "get_key_into({}) returned true but no key has that value", q),
+        }
+    }
+    Ok(())
 }
 
 /// A bound key described relative to the model, resolved at check time so
@@ -562,6 +597,10 @@ pub fn query_suite(bytes: &[u8], pairs: &Pairs) -> CheckResult {
             i += 1;
         }
         vensure!(it.next().is_none(), "search-state-mismatch", "search_with_state ended early after {} items", i);
+    }
+    // get_key, where its precondition (values strictly increasing with the keys) holds
+    if pairs.windows(2).all(|w| w[0].1 < w[1].1) {
+        check_get_key(bytes, pairs, 64)?;
     }
     // set operations with a sub-model
     let half: Pairs = pairs.iter().step_by(2).cloned().collect();
